@@ -125,8 +125,8 @@ Proof.
   intros Hk Hv Hwk Hwv p1 p2 p3. unfold parse_keyval, line.
   rewrite (bind_ok _ _ _ _ _ (key_rt k tk (x20 :: tv ++ [x0a]) p d Hk Hwk)). fold p1.
   assert (Hq : quote_headed tv).
-  { unfold write_string in Hwv. destruct (vmetrics_of true v) as [m|]; [|discriminate].
-    apply (quote_headed_token v m StDefault tv Hwv). }
+  { unfold write_string in Hwv.
+    apply (quote_headed_token v (vmetrics_of v) StDefault tv Hwv). }
   assert (Hstop : stops (in_class WSCHAR) (tv ++ [x0a])).
   { destruct Hq as [b [t' [-> Hb]]]. cbn [app stops]. unfold QUOTATION_MARK, APOSTROPHE in Hb. byten. lia. }
   assert (Hval : value_ (mkIn (tv ++ [x0a]) p2 d) = Ok (string_value v tv p2) (after tv [x0a] p2 d)).
@@ -179,7 +179,8 @@ Proof.
     { unfold line. rewrite Htk. cbn [app]. eapply peek_ok. apply any_cons. }
     rewrite (bind_ok _ _ _ _ _ Hpeek). rewrite H1, H2, H3, H4. cbn [orb].
     assert (Hkv : cut_err (keyval st) (mkIn (line tk tv) 0%N 0) = Ok st1 iend').
-    { apply cut_err_ok. unfold keyval, try_map. rewrite Hpk. rewrite Hok. reflexivity. }
+    { apply cut_err_ok. unfold keyval, try_map, on_keyval_sp. rewrite Hpk. rewrite Hok.
+      cbn [set_dotted_spans]. destruct st1; reflexivity. }
     rewrite (bind_ok _ _ _ _ _ Hkv).
     unfold parse_ws. unfold iend'.
     erewrite pmap_ok; [reflexivity|]. apply span_ok with (a := []). apply ws_none. exact I.
